@@ -384,6 +384,25 @@ class FactBase:
                 self._load(p)
         self._callers = None
         self._by_name = None
+        self._canonicalise()
+
+    def _canonicalise(self):
+        """Cross-crate callees are printed by rustc through their re-exported path; rewrite them to the id the
+        callee has in its own crate (joined on the re-export independent def-path key)."""
+        by_key = {f.j.get("key"): f for f in self.fns.values() if f.j.get("key")}
+        self.fns_by_key = by_key
+        for f in self.fns.values():
+            for b in f.blocks:
+                t = b.term
+                if t.op != "call":
+                    continue
+                rk, fk = t.j.get("resk"), t.j.get("fnk")
+                if rk in by_key:
+                    t.callee = by_key[rk].id
+                elif fk in by_key and t.j.get("res") is None:
+                    t.callee = by_key[fk].id
+                if fk in by_key:
+                    t.declared = by_key[fk].id
 
     def _load(self, path):
         self.files_loaded.append(path)
@@ -466,7 +485,7 @@ class FactBase:
         out = []
         for f in self.fns.values():
             for t in f.calls():
-                if (t.callee and rx.search(t.callee)) or (t.declared and rx.search(t.declared)):
+                if any(n and rx.search(n) for n in (t.callee, t.declared, t.j.get("res"), t.j.get("fn"))):
                     out.append(t)
         return out
 
